@@ -123,9 +123,10 @@ def classify_call(params: list[tuple[str, str | None]], actuals: list[list[Any]]
                 return f"call-binding:false-accept:{name}:lands-in={lands}:via={vias or '?'}"
             return f"call-binding:false-accept:{name}:param-kind={pk}:via={vias or '?'}"
         return f"call-binding:false-accept:other-TypeError:actuals={kinds}"
-    tmpl = "|".join(sorted({re.sub(r'"[^"]*"', '"_"', re.sub(r' (for|in call to) "[^"]*"', "", m[1])) for m in mypy_msgs
-                            if in_family(m[0], m[1])}))
-    return f"call-binding:false-reject:{tmpl[:90]}:actuals={kinds}"
+    tmpls = sorted({re.sub(r'"[^"]*"', '"_"', re.sub(r' (for|in call to) "[^"]*"', "", m[1])) for m in mypy_msgs
+                    if in_family(m[0], m[1])})
+    variadic = "+".join(sorted({KIND_WORD[a[0]] for a in actuals if a[0] in ("star", "td")})) or "none"
+    return f"call-binding:false-reject:{(tmpls or ['?'])[0][:70]}:variadic-actuals={variadic}"
 
 
 def call_cells(sub: Sub, params_kinds: str, actuals: list[list[Any]], accept: bool) -> None:
